@@ -983,7 +983,7 @@ func segmentStatsWorker(statRes *segresults.StatsResults, mCols map[string]bool,
 					nodeRes.StoreGlobalSearchError(fmt.Sprintf("segmentStatsWorker: Failed to extract value for cname %+v", cname), log.ErrorLevel, err)
 					continue
 				}
-				addValsToTimeStats(localStats, cname, latestTs, earliestTs, cValEnc.CVal, multiReader, needLatestOrEarliest, blockStatus.BlockNum, recNum, qid)
+				addValsToTimeStats(localStats, cname, latestTs, earliestTs, &cValEnc, multiReader, needLatestOrEarliest, blockStatus.BlockNum, recNum, qid)
 				hasValuesFunc, exists := valuesUsage[cname]
 				if !exists {
 					hasValuesFunc = false
@@ -1037,21 +1037,36 @@ func segmentStatsWorker(statRes *segresults.StatsResults, mCols map[string]bool,
 	statRes.MergeSegStats(localStats)
 }
 
-func addValsToTimeStats(localStats map[string]*structs.SegStats, colName string, latestTs uint64, earliestTs uint64, rawVal interface{}, mcr *segread.MultiColSegmentReader, needLatestOrEarliest bool, blockNum, recNum uint16, qid uint64) {
-	stats.AddSegStatsUNIXTime(localStats, colName, latestTs, rawVal, true)
-	stats.AddSegStatsUNIXTime(localStats, colName, earliestTs, rawVal, false)
-	if needLatestOrEarliest {
-		tsCVal := sutils.CValueEnclosure{}
-		timestampIdx := -1
-		err := mcr.ExtractValueFromColumnFile(timestampIdx, blockNum, recNum, qid, true, &tsCVal)
-		if err != nil {
-			log.Errorf("qid=%d, addValsToTimeStts failed to get timestamp values for dict/non-dict encoded column; col: %v", qid, colName)
-		} else {
-			stats.AddSegStatsLatestEarliestVal(localStats, colName, &tsCVal, rawVal, true)
-			stats.AddSegStatsLatestEarliestVal(localStats, colName, &tsCVal, rawVal, false)
-		}
+func addValsToTimeStats(localStats map[string]*structs.SegStats, colName string, latestTs uint64, earliestTs uint64, cValEnc *sutils.CValueEnclosure, mcr *segread.MultiColSegmentReader, needLatestOrEarliest bool, blockNum, recNum uint16, qid uint64) {
+	if !needLatestOrEarliest {
+		stats.AddSegStatsUNIXTime(localStats, colName, latestTs, cValEnc.CVal, true)
+		stats.AddSegStatsUNIXTime(localStats, colName, earliestTs, cValEnc.CVal, false)
+		return
 	}
 
+	// latest(col) and earliest(col) are the values of the newest and the oldest record that
+	// has the column, so the time stats of the column only advance on such records.
+	if cValEnc.IsNull() {
+		return
+	}
+
+	tsCVal := sutils.CValueEnclosure{}
+	timestampIdx := -1
+	err := mcr.ExtractValueFromColumnFile(timestampIdx, blockNum, recNum, qid, true, &tsCVal)
+	if err != nil {
+		log.Errorf("qid=%d, addValsToTimeStts failed to get timestamp values for dict/non-dict encoded column; col: %v", qid, colName)
+		return
+	}
+	recTs, err := tsCVal.GetUIntValue()
+	if err != nil {
+		log.Errorf("qid=%d, addValsToTimeStts failed to convert the timestamp of a record; col: %v, err: %v", qid, colName, err)
+		return
+	}
+
+	stats.AddSegStatsUNIXTime(localStats, colName, recTs, cValEnc.CVal, true)
+	stats.AddSegStatsUNIXTime(localStats, colName, recTs, cValEnc.CVal, false)
+	stats.AddSegStatsLatestEarliestVal(localStats, colName, &tsCVal, cValEnc.CVal, true)
+	stats.AddSegStatsLatestEarliestVal(localStats, colName, &tsCVal, cValEnc.CVal, false)
 }
 
 // returns all columns that are not dict encoded
@@ -1088,7 +1103,7 @@ func applySegmentStatsUsingDictEncoding(mcr *segread.MultiColSegmentReader, filt
 		for colName, rawVals := range results {
 			for i, rawVal := range rawVals {
 				recNum := filterdRecNums[i]
-				addValsToTimeStats(lStats, colName, latestTs, earliestTs, rawVal.CVal, mcr, needLatestOrEarliest, blockNum, recNum, qid)
+				addValsToTimeStats(lStats, colName, latestTs, earliestTs, &rawVal, mcr, needLatestOrEarliest, blockNum, recNum, qid)
 				colUsage, exists := aggColUsage[colName]
 				if !exists {
 					colUsage = sutils.NoEvalUsage
